@@ -1,0 +1,95 @@
+//go:build verif
+
+package interp
+
+import "sync"
+
+// Verification hooks, compiled in with the build tag "verif" only (see
+// parser/verif_on.go). With VerifHook == nil the hooks do nothing.
+
+const (
+	vStart = iota
+	vExit
+	vSpawn
+	vRecv
+	vSend
+	vSendPost
+	vErr
+	vSet
+	vReturn
+)
+
+// Kinds of hooked operations.
+const (
+	VStart    = vStart    // first statement of the lexer goroutine
+	VExit     = vExit     // last deferred statement of the lexer goroutine
+	VSpawn    = vSpawn    // the lexer goroutine is about to be started
+	VRecv     = vRecv     // Lex: before the receive from the token channel
+	VSend     = vSend     // emit: before the select
+	VSendPost = vSendPost // emit: after the select
+	VErr      = vErr      // entry of lexer.Error
+	VSet      = vSet      // entry of lexer.set
+	VReturn   = vReturn   // Eval: before the results are read
+)
+
+// VerifEvent describes a hooked operation.
+type VerifEvent struct {
+	Kind         int
+	Lex          interface{}
+	CancelClosed func() bool
+}
+
+// VerifHook receives every hooked operation. For VSend it returns true when
+// the lexer has to take the cancel branch of the select.
+var VerifHook func(ev *VerifEvent) bool
+
+var (
+	vmu    sync.Mutex
+	vsaved = make(map[*lexer]chan struct{})
+)
+
+func (l *lexer) vev(kind int) *VerifEvent {
+	return &VerifEvent{
+		Kind: kind,
+		Lex:  l,
+		CancelClosed: func() bool {
+			select {
+			case <-l.cancel:
+				return true
+			default:
+				return false
+			}
+		},
+	}
+}
+
+func vpoint(l *lexer, kind int) {
+	if h := VerifHook; h != nil {
+		h(l.vev(kind))
+	}
+}
+
+func vsend(l *lexer) {
+	if h := VerifHook; h != nil {
+		ev := l.vev(vSend)
+		cancel := h(ev)
+		if !cancel && ev.CancelClosed() {
+			vmu.Lock()
+			vsaved[l] = l.cancel
+			vmu.Unlock()
+			l.cancel = make(chan struct{})
+		}
+	}
+}
+
+func vsendPost(l *lexer) {
+	if h := VerifHook; h != nil {
+		vmu.Lock()
+		if c, ok := vsaved[l]; ok {
+			l.cancel = c
+			delete(vsaved, l)
+		}
+		vmu.Unlock()
+		h(l.vev(vSendPost))
+	}
+}
